@@ -691,7 +691,95 @@ def run_empty_typed_vs_untyped(chk, spec):
 		chk.fail("the result has the length of the operands", "arith/length/empty-typed-vs-untyped", f"{spec!r}: {o.value!r}")
 
 
-RUNNERS = {"empty_typed_vs_untyped": run_empty_typed_vs_untyped, "namesake_broadcast": run_namesake_broadcast, "call_write_call": run_call_write_call, "row_method": run_row_method, "str_format_sequence": run_str_format_sequence, "table_unary": run_table_unary, "table_columnwise": run_table_columnwise, "unsized": run_unsized, "symbolic": run_symbolic, "identity": run_identity, "row_arith": run_row_arith, "helper": run_helper, "arith": run_arith, "table_arith": run_table_arith, "method": run_method, "date_days": run_date_days, "recompute": recompute.runner("C05")}
+class _Rec:
+	"""an operand that answers both spellings of +, -, * and says which one was used"""
+	def __init__(self, tag):
+		self.tag = tag
+	def __add__(self, o): return ("left+", self.tag, o)
+	def __radd__(self, o): return ("right+", self.tag, o)
+	def __sub__(self, o): return ("left-", self.tag, o)
+	def __rsub__(self, o): return ("right-", self.tag, o)
+	def __mul__(self, o): return ("left*", self.tag, o)
+	def __rmul__(self, o): return ("right*", self.tag, o)
+
+
+def run_typed_right_operand(chk, spec):
+	"""a plain vector of objects on the LEFT of a typed vector (dates, ints, floats, strings) on the right: element i is left_i (op) right_i - the typed operand's own
+	reflected method, where its class has one, must not turn the operands round"""
+	import operator, warnings
+	op = {"add": operator.add, "sub": operator.sub, "mul": operator.mul}[spec["opname"]]
+	right_vals = {"date": [date(2020, 1, 1), date(2021, 2, 3)], "int": [3, 4], "float": [1.5, 2.5], "str": ["a", "b"], "date-with-none": [date(2020, 1, 1), None]}[spec["right"]]
+	lefts = [_Rec("p"), _Rec("q")]
+	with warnings.catch_warnings():
+		warnings.simplefilter("ignore")
+		left = Vector(list(lefts), dtype=object) if spec["left_typed"] == "object" else Vector(list(lefts))
+		right = Vector(list(right_vals))
+		o = call(op, left, right)
+	chk.judged("arith-value", ("typed-right-operand", spec["opname"], spec["right"], spec["left_typed"]))
+	exp = [None if y is None else op(x, y) for x, y in zip(lefts, right_vals)]
+	if not o.ok:
+		chk.fail("serif computes what Python defines", f"arith/raises-where-python-defines/typed-right-operand/{spec['right']}/{type(o.exc).__name__}", f"{spec!r}: {o!r}")
+		return
+	got = list(o.value._underlying)
+	if got != exp:
+		chk.fail("element i is exactly what Python computes for the i-th operands in written order", f"arith/operand-order/{spec['opname']}/object-vector-with-{spec['right']}-vector", f"{spec!r}: serif {short(got, 160)}, python {short(exp, 160)}")
+
+
+def run_iterated_row_arith(chk, spec):
+	"""arithmetic on the rows of ONE iteration (a single view moved along the table): element i of each result is the operation on that row's i-th cell, None staying None - whatever
+	the rows looked at before held"""
+	import operator, warnings
+	rows = {"none-later": [[1, 2, 3], [4, None, 6], [None, 8, 9]], "none-first": [[None, 2, 3], [4, 5, 6], [7, None, 9]], "floats": [[1.5, 2.5], [None, 1.0], [3.0, None]]}[spec["rows"]]
+	cols = [list(c) for c in zip(*rows)]
+	width = len(rows[0])
+	ops = {"+1": lambda r: r + 1, "2*": lambda r: 2 * r, "neg": lambda r: -r, "abs": lambda r: abs(r), "+list": lambda r: r + list(range(width)), "list-": lambda r: list(range(width)) - r, "+vector": lambda r: r + Vector(list(range(width))), "pos": lambda r: +r, "**2": lambda r: r ** 2}
+	model = {"+1": lambda x, i: x + 1, "2*": lambda x, i: 2 * x, "neg": lambda x, i: -x, "abs": lambda x, i: abs(x), "+list": lambda x, i: x + i, "list-": lambda x, i: i - x, "+vector": lambda x, i: x + i, "pos": lambda x, i: +x, "**2": lambda x, i: x ** 2}
+	f, m = ops[spec["op"]], model[spec["op"]]
+	with warnings.catch_warnings():
+		warnings.simplefilter("ignore")
+		t = Table({f"c{j}": col for j, col in enumerate(cols)})
+		got = {}
+		if spec["order"] == "iteration":
+			for i, row in enumerate(t):
+				got[i] = call(f, row)
+		elif spec["order"] == "iteration-twice-per-row":
+			for i, row in enumerate(t):
+				call(f, row)
+				got[i] = call(f, row)
+		else:
+			r = t[0]
+			for i in (0, 2, 1):
+				got[i] = call(f, r.set_index(i))
+	chk.judged("arith-value", ("iterated-row-arith", spec["op"], spec["rows"], spec["order"]))
+	for i in sorted(got):
+		exp = [None if x is None else m(x, k) for k, x in enumerate(rows[i])]
+		o = got[i]
+		if not o.ok:
+			chk.fail("serif computes what Python defines", f"arith/raises-where-python-defines/row-of-iteration/{spec['op']}/{type(o.exc).__name__}", f"{spec!r}: row {i} = {rows[i]!r}: {o!r}")
+			return
+		g = list(o.value._underlying)
+		if M.first_diff(g, exp):
+			chk.fail("element i of the result is the operation applied to element i, None staying None", f"arith/element-mismatch/row-of-iteration/{spec['op']}", f"{spec!r}: row {i} = {rows[i]!r}: {short(g, 120)}, expected {short(exp, 120)}")
+			return
+
+
+def run_empty_typed_length(chk, spec):
+	"""an empty operand that still carries a dtype (what a filter leaves) against a NON-empty one: lengths differ, so the operation raises - in every operand form"""
+	import operator, warnings
+	op = {"add": operator.add, "sub": operator.sub, "mul": operator.mul, "truediv": operator.truediv}[spec["opname"]]
+	src = {"int": [1, 2, 3], "date": [date(2020, 1, 1)], "str": ["a"], "float": [1.5, None]}[spec["kind"]]
+	with warnings.catch_warnings():
+		warnings.simplefilter("ignore")
+		v = Vector(list(src))
+		e = {"slice": lambda: v[0:0], "mask": lambda: v[[False] * len(src)], "dropna-of-nones": lambda: v[0:0].dropna(), "earlier-arith": lambda: Vector([]) + 1, "table": lambda: Table({"a": list(src), "b": list(src)})[0:0]}[spec["how"]]()
+		other = {"list": [1, 2], "vector": Vector([1, 2, 3]), "tuple": (1,), "table": Table({"x": [1, 2], "y": [3, 4]})}[spec["other"]]
+		o = call(op, e, other) if spec["side"] == "left" else call(op, other, e)
+	chk.judged("arith-value", ("empty-typed-length", spec["kind"], spec["how"], spec["other"], spec["opname"], spec["side"]))
+	if o.ok:
+		chk.fail("operands of different length raise", f"arith/length-mismatch-accepted/empty-typed-operand/{spec['how']}/{spec['other']}", f"{spec!r}: returned {short(o.value, 100)}")
+
+
+RUNNERS = {"typed_right_operand": run_typed_right_operand, "iterated_row_arith": run_iterated_row_arith, "empty_typed_length": run_empty_typed_length, "empty_typed_vs_untyped": run_empty_typed_vs_untyped, "namesake_broadcast": run_namesake_broadcast, "call_write_call": run_call_write_call, "row_method": run_row_method, "str_format_sequence": run_str_format_sequence, "table_unary": run_table_unary, "table_columnwise": run_table_columnwise, "unsized": run_unsized, "symbolic": run_symbolic, "identity": run_identity, "row_arith": run_row_arith, "helper": run_helper, "arith": run_arith, "table_arith": run_table_arith, "method": run_method, "date_days": run_date_days, "recompute": recompute.runner("C05")}
 
 PAIRS = [("int", "int"), ("int", "float"), ("float", "int"), ("bool", "int"), ("int", "complex"), ("float", "float"), ("str", "str"),
 	("str", "int"), ("date", "timedelta"), ("datetime", "timedelta"), ("timedelta", "timedelta"), ("timedelta", "int"), ("list", "list"),
@@ -744,6 +832,22 @@ def run(chk):
 	rng = chk.rng
 	for spec in product_specs(chk):
 		chk.case("arith", spec, "arith-" + spec["form"])
+	for opname in ("add", "sub", "mul"):
+		for right in ("date", "int", "float", "str", "date-with-none"):
+			for left_typed in ("object", "inferred"):
+				chk.case("typed_right_operand", {"opname": opname, "right": right, "left_typed": left_typed}, "arith-typed-right-operand")
+	for op in ("+1", "2*", "neg", "abs", "+list", "list-", "+vector", "pos", "**2"):
+		for rows in ("none-later", "none-first", "floats"):
+			for order in ("iteration", "iteration-twice-per-row", "moved-by-hand"):
+				chk.case("iterated_row_arith", {"op": op, "rows": rows, "order": order}, "arith-iterated-rows")
+	for kind in ("int", "date", "str", "float"):
+		for how in ("slice", "mask", "dropna-of-nones", "earlier-arith", "table"):
+			for other in ("list", "vector", "tuple", "table"):
+				for opname in ("add", "mul"):
+					for side in ("left", "right"):
+						if (how == "table") != (other == "table") and other == "table":
+							continue
+						chk.case("empty_typed_length", {"kind": kind, "how": how, "other": other, "opname": opname, "side": side}, "arith-empty-typed-length")
 	for kind in ("date", "int", "str", "float"):
 		for opname in ("add", "sub", "mul"):
 			for side in ("typed-left", "typed-right"):
